@@ -361,6 +361,24 @@ class Stream:
     self.meta.append(meta)
 
 
+import enum as _enum
+
+_LEAF_TYPES = (bool, int, float, complex, str, bytes, _enum.Enum, type(None), type(NotImplemented), type(Ellipsis))
+
+
+def own_memoizable(value) -> bool:
+  """The oracle's own statement of "has an identity that matters": everything except immutable
+  non-container leaves and the empty tuple (written from the documentation, not imported from daglish)."""
+  return not isinstance(value, _LEAF_TYPES) and not (type(value) is tuple and len(value) == 0)
+
+
+def own_internable(value) -> bool:
+  """Leaves, and plain tuples built (recursively) from leaves only: values Python may intern."""
+  if not own_memoizable(value):
+    return True
+  return type(value) is tuple and all(own_internable(e) for e in value)
+
+
 CURRENT_RESULT = None   # the Result being filled: lets check.py salvage failures if the harness crashes
 
 
